@@ -22,7 +22,7 @@ RULE = ("Hypothesis trees: depth <= 4 (6 in thorough), fan-out <= 4 (wide trees:
         "makes the trees unequal in both directions; deepcopy, pickle and serialise-and-parse copies are equal both ways and "
         "serialise identically. Non-trivial: >= 3 components and a repeated subcomponent name; distinct by hash.")
 ASSUMPTIONS = ["parameter-only differences are not asserted either way", "generated texts contain no backslash (RC-B would change them on serialise-and-parse; C01/C07 own that)"]
-REQUIRED_CLASSES = ["custom-zone", "custom-zone:rule-with-interval", "custom-zone:rule-with-count", "repeated-sub-name", "unknown-component", "perturb:kind", "perturb:value", "perturb:zone", "perturb:add-sub", "perturb:remove-sub", "perturb:dup-sub",
+REQUIRED_CLASSES = ["custom-zone", "custom-zone:rule-with-interval", "custom-zone:rule-with-count", "custom-zone:rule-with-exdate", "repeated-sub-name", "unknown-component", "perturb:kind", "perturb:value", "perturb:zone", "perturb:add-sub", "perturb:remove-sub", "perturb:dup-sub",
                     "perturb:swap-mult", "root:VCALENDAR", "zoned-value"]
 
 
@@ -391,8 +391,14 @@ def _var_style(rule):
     for k in ("INTERVAL", "COUNT", "WKST"):
         if rule.get(k.lower()):
             r[k] = [rule[k.lower()]]
+    dl = _obs("DAYLIGHT", [2000, 3, 26, 2, 0, 0], 3600, 7200, "VST", r)
+    if rule.get("exdate"):      # one recurrence of the daylight rule is excluded: no daylight time that year
+        import calendar as _cal
+        y = rule["exdate"]
+        d = max(w[6] for w in _cal.monthcalendar(y, 3) if w[6])
+        dl["p"].append(["EXDATE", {"k": "dates", "v": [{"k": "naive", "v": [y, 3, d, 2, 0, 0]}]}])
     return {"c": "VTIMEZONE", "p": [["TZID", {"k": "text", "v": "Custom/Var"}]], "s": [
-        _obs("DAYLIGHT", [2000, 3, 26, 2, 0, 0], 3600, 7200, "VST", r),
+        dl,
         _obs("STANDARD", [2000, 10, 29, 3, 0, 0], 7200, 3600, "VT", {"FREQ": "YEARLY", "BYMONTH": [10], "BYDAY": ["-1SU"]})]}
 
 
@@ -431,7 +437,17 @@ def judge_custom_zone(case, provider):
             continue
         r1, r2 = eq(a, cp), eq(cp, a)
         if r1 is not True or r2 is not True:
-            fails.append(Failure(f"C20.copies@custom-zone/{provider}", f"copy-unequal@custom-zone/{label}/{provider}", f"{r1!r} {r2!r}"))
+            # localise: which events differ?  Only if every differing event holds a wall time inside a fold of the definition
+            # is this the fold finding (RC-S/fold); any other unequal copy is reported under the plain clause.
+            where = ""
+            try:
+                ea_, ec_ = a.walk("VEVENT"), cp.walk("VEVENT")
+                diff = [i for i, (x, y) in enumerate(zip(ea_, ec_)) if eq(x, y) is not True or eq(y, x) is not True]
+                if diff and len(ea_) == len(ec_) == len(case["walls"]) and all(_wall_in_fold(case, case["walls"][i]) for i in diff):
+                    where = "@fold-wall"
+            except Exception:  # noqa: BLE001
+                where = ""
+            fails.append(Failure(f"C20.copies@custom-zone/{provider}{where}", f"copy-unequal@custom-zone/{label}/{provider}{where}", f"{r1!r} {r2!r}"))
         elif T.extract(cp) != ea:
             fails.append(Failure(f"C20.copies@custom-zone/{provider}", f"copy-has-other-offsets@custom-zone/{label}/{provider}", _first_diff(a, cp)))
         try:
@@ -492,6 +508,8 @@ def _model_of(vt_tree):
         ob = {"kind": sub["c"], "from": pr["TZOFFSETFROM"]["s"], "to": pr["TZOFFSETTO"]["s"], "name": pr["TZNAME"]["v"], "start": pr["DTSTART"]["v"]}
         if "RDATE" in pr:
             ob["rdates"] = [d["v"] for d in pr["RDATE"]["v"]]
+        if "EXDATE" in pr:
+            ob["exdates"] = [d["v"] for d in pr["EXDATE"]["v"]]
         if "RRULE" in pr:
             r = pr["RRULE"]["v"]
             m = _re.fullmatch(r"(-?\d+)([A-Z]{2})", r["BYDAY"][0])
@@ -505,6 +523,20 @@ def _model_of(vt_tree):
 def region_custom_zone_pytz(case):
     """RC-S: zones built from a VTIMEZONE under pytz cannot be pickled / deep-copied (UnknownTimeZoneError)"""
     return case.get("kind") == "custom-zone"
+
+
+def _wall_in_fold(case, w):
+    from datetime import datetime as _dt, timedelta as _td
+    from vlib.model import vtz as Z
+    m = _model_of(_zone_defs(case)[case["zone"]])
+    for ob in m["obs"]:
+        d = ob["from"] - ob["to"]
+        if d <= 0:
+            continue
+        for t in Z.local_onsets(ob):
+            if t - _td(seconds=d) <= _dt(*w) < t:
+                return True
+    return False
 
 
 def region_custom_zone_fold(case):
@@ -551,14 +583,30 @@ def _hyp(depth, fanout=4):
     return mk
 
 
+def _aim_walls(case):
+    """for the generated rule parts add a wall time in the period each of them affects (the summer of the excluded year, of a
+    year the INTERVAL skips, of the first year after COUNT ran out)"""
+    if case["zone"] != "Custom/Var":
+        return case
+    r = case.get("rule") or {}
+    extra = []
+    if r.get("exdate"):
+        extra.append([r["exdate"], 7, 1, 12, 0, 0])
+    if r.get("interval"):
+        extra.append([2001, 7, 1, 12, 0, 0])
+    if r.get("count"):
+        extra.append([2000 + r["count"] * (r.get("interval") or 1), 7, 1, 12, 0, 0])
+    return dict(case, walls=(case["walls"] + extra)[-4:])
+
+
 def _custom_zone_cases():
     wall = st.tuples(st.integers(1990, 2030), st.integers(1, 12), st.integers(1, 28), st.integers(0, 23), st.sampled_from([0, 30]), st.just(0)).map(list)
     edge = st.sampled_from([[2005, 7, 1, 12, 0, 0], [2010, 11, 3, 12, 0, 0], [2006, 10, 29, 1, 30, 0], [2021, 10, 31, 2, 30, 0], [2021, 3, 28, 2, 30, 0], [2010, 3, 14, 2, 30, 0]])
     return st.fixed_dictionaries({"kind": st.just("custom-zone"), "provider": st.sampled_from(["zoneinfo", "pytz"]),
                                   "zone": st.sampled_from(["Custom/EU", "Custom/Fixed", "Custom/RD", "Custom/US", "Custom/Var", "Custom/Var"]),
                                   "rule": st.fixed_dictionaries({"interval": st.sampled_from([None, 2, 2, 3]), "count": st.sampled_from([None, None, 5, 12]),
-                                                                 "wkst": st.sampled_from([None, "SU", "MO"])}),
-                                  "walls": st.lists(st.one_of(wall, edge), min_size=1, max_size=4)})
+                                                                 "wkst": st.sampled_from([None, "SU", "MO"]), "exdate": st.sampled_from([None, None, 2004, 2021, 2010])}),
+                                  "walls": st.lists(st.one_of(wall, edge), min_size=1, max_size=4)}).map(_aim_walls)
 
 
 def streams(tier):
